@@ -656,6 +656,7 @@ func zzC03Spell(rng *rand.Rand, s, how string) (t string) {
 }
 
 func (c *zzC03Conc) lists(v *zzC03Vec) (allowed, disallowed, hosts []string) {
+	allowed, disallowed, hosts = []string{}, []string{}, []string{}
 	for _, e := range v.Allowed {
 		allowed = append(allowed, c.entry(e))
 	}
@@ -854,6 +855,8 @@ type zzC03Ctl struct {
 // reports whether it was answered.
 func (z *zzC03Srv) control(ctl *zzC03Ctl) (ok bool) {
 	z.ctlAddr.Store(&ctl.src)
+	defer z.ctlAddr.Store(nil)
+
 	conn, err := net.DialUDP("udp4", &net.UDPAddr{IP: ctl.src.AsSlice()}, z.udp4)
 	if err != nil {
 		return false
@@ -1272,6 +1275,16 @@ func zzC03Sweep(z *zzC03Srv, u, v *zzC03Vec, rng *rand.Rand, full bool, rec *zzC
 
 	nid := len(u.IDs)
 
+	// The pre-request hook itself must never resolve, filter, log or count:
+	// whatever it answers, the observers of this server stay where they are.
+	obs0 := z.obs.snap()
+	defer func() {
+		if obs1 := z.obs.snap(); obs1 != obs0 {
+			rec.bad("observers", v, cl, &zzC03AReq{Form: "plain", Proto: "-"}, &zzC03Req{Level: "handler"},
+				[]string{"observers unmoved by HandleBefore"}, fmt.Sprintf("%+v", zzC03Delta(obs0, obs1)), nil)
+		}
+	}()
+
 	// run executes one request at handler level and compares; on a mismatch
 	// it is run a second time, alone, and for a non-plain form the plain form
 	// is run as well.
@@ -1299,7 +1312,7 @@ func zzC03Sweep(z *zzC03Srv, u, v *zzC03Vec, rng *rand.Rand, full bool, rec *zzC
 			return
 		}
 
-		extra := map[string]any{}
+		extra := map[string]any{"ex": ex, "hv": hv}
 		if ar.Form != "plain" {
 			pr := *r
 			pr.Addr, pr.Form = plain.String(), "plain"
@@ -1339,7 +1352,7 @@ func zzC03Sweep(z *zzC03Srv, u, v *zzC03Vec, rng *rand.Rand, full bool, rec *zzC
 				}
 
 				if got != (ex == 1) {
-					extra := map[string]any{}
+					extra := map[string]any{"ex": ex, "hv": 0}
 					if form != "plain" {
 						pg, _ := z.s.IsBlockedClient(c.addr(a.Fam, a.Bits), c.id(id))
 						extra["plain_out"] = fmt.Sprint(pg)
@@ -1455,7 +1468,7 @@ func zzC03Probe(z *zzC03Srv, v *zzC03Vec, cl [3][]string, c *zzC03Conc, rng *ran
 		return got
 	}
 
-	extra := map[string]any{"obs_delta": d, "obs_ok": okObs}
+	extra := map[string]any{"obs_delta": d, "obs_ok": okObs, "ex": ex, "hv": hv}
 	if ar.Form != "plain" {
 		pr := *r
 		pr.Form = "plain"
@@ -1647,7 +1660,7 @@ func zzC03LinkLocal(z *zzC03Srv, rec *zzC03Rec) {
 					ar := &zzC03AReq{Addr: zzC03Addr{Fam: "v6", Bits: []int{}}, Form: "zoned", Proto: "udp", Name: []string{"linklocal"}}
 					rec.bad("transport", v, [3][]string{al, dis, nil}, ar,
 						&zzC03Req{Level: "linklocal", Proto: "udp", Addr: ip.WithZone(ifc.Name).String(), Form: "zoned", Name: msg.Question[0].Name, Qtype: dns.TypeA},
-						want, got, map[string]any{"plain_agrees": true, "plain_out": "n/a (entry and address are the same link-local address)"})
+						want, got, map[string]any{"ex": map[string]int{"block": 1, "allow": 0}[mode], "hv": 0, "plain_agrees": true, "plain_out": "n/a (entry and address are the same link-local address)"})
 				}
 			}
 
@@ -1737,4 +1750,345 @@ func TestZZVerifC03Replay(t *testing.T) {
 	}
 
 	w.put(map[string]any{"kind": "summary", "cfgs": len(cfgs), "cfgs_transport": ncfgT, "counts": counts, "bad_by_sig": bySig, "full": full})
+}
+
+// ---------------------------------------------------------------- direction B
+
+var zzC03BLabels = []string{"ads", "xads", "cdn", "beta", "track", "a", "shop"}
+var zzC03BTLDs = []string{"com", "org", "net"}
+var zzC03BIDs = []string{"phone", "tv-2", "kid", "lap-top", "guest7", "x"}
+
+func zzC03RandBits(rng *rand.Rand, n int) (b []int) {
+	b = make([]int, n)
+	for i := range b {
+		b[i] = rng.Intn(2)
+	}
+
+	return b
+}
+
+func zzC03RandName(rng *rand.Rand) (n []string) {
+	k := rng.Intn(4)
+	for i := 0; i < k; i++ {
+		n = append(n, zzC03BLabels[rng.Intn(len(zzC03BLabels))])
+	}
+
+	n = append(n, zzC03BTLDs[rng.Intn(len(zzC03BTLDs))])
+	if rng.Intn(8) == 0 {
+		// A name that embeds another registrable name.
+		n = append(n, zzC03BTLDs[rng.Intn(len(zzC03BTLDs))])
+	}
+
+	return n
+}
+
+func zzC03EntryKey(e zzC03Entry) (k string) { return fmt.Sprint(e.K, e.Fam, e.Bits, e.ID) }
+
+// zzC03RandLists draws disjoint allowed / disallowed lists and a blocked-hosts
+// list over the 8-bit universe.
+func zzC03RandLists(rng *rand.Rand, w int) (v *zzC03Vec) {
+	v = &zzC03Vec{Kind: "set", Universe: "trace"}
+	used := map[string]bool{}
+	draw := func(n int) (es []zzC03Entry) {
+		es = []zzC03Entry{}
+		for len(es) < n {
+			var e zzC03Entry
+			fam := []string{"v4", "v4", "v6"}[rng.Intn(3)]
+			switch rng.Intn(6) {
+			case 0, 1:
+				e = zzC03Entry{K: "ip", Fam: fam, Bits: zzC03RandBits(rng, w)}
+			case 2, 3, 4:
+				// Real-looking CIDR mix: every prefix length, short ones too.
+				e = zzC03Entry{K: "cidr", Fam: fam, Bits: zzC03RandBits(rng, rng.Intn(w+1))}
+			default:
+				e = zzC03Entry{K: "id", Bits: []int{}, ID: zzC03BIDs[rng.Intn(len(zzC03BIDs))]}
+			}
+
+			if k := zzC03EntryKey(e); !used[k] {
+				used[k] = true
+				es = append(es, e)
+			}
+		}
+
+		return es
+	}
+
+	v.Allowed, v.Disallowed = []zzC03Entry{}, []zzC03Entry{}
+	switch rng.Intn(4) {
+	case 0:
+		v.Allowed = draw(1 + rng.Intn(5))
+		v.Disallowed = draw(rng.Intn(4))
+	case 1:
+		// Both empty or nearly so.
+		v.Disallowed = draw(rng.Intn(2))
+	default:
+		v.Disallowed = draw(1 + rng.Intn(6))
+	}
+
+	v.Hosts = []zzC03Pat{}
+	seen := map[string]bool{}
+	for i, n := 0, rng.Intn(5); i < n; i++ {
+		nm := zzC03RandName(rng)
+		if len(nm) < 2 {
+			// A one-label pattern is a substring rule of the engine's syntax:
+			// outside the three pattern shapes of the spec.
+			nm = append([]string{zzC03BLabels[rng.Intn(len(zzC03BLabels))]}, nm...)
+		}
+
+		p := zzC03Pat{K: []string{"exact", "domain", "wild"}[rng.Intn(3)], N: nm}
+		if k := fmt.Sprint(p); !seen[k] {
+			seen[k] = true
+			v.Hosts = append(v.Hosts, p)
+		}
+	}
+
+	return v
+}
+
+// zzC03RandReq draws a request, biased towards the neighbourhood of the
+// installed entries and patterns.
+func zzC03RandReq(rng *rand.Rand, v *zzC03Vec, w int, protos []string) (ar *zzC03AReq) {
+	ar = &zzC03AReq{Proto: protos[rng.Intn(len(protos))]}
+	entries := append(append([]zzC03Entry{}, v.Allowed...), v.Disallowed...)
+
+	ar.Addr = zzC03Addr{Fam: []string{"v4", "v4", "v6"}[rng.Intn(3)], Bits: zzC03RandBits(rng, w)}
+	if len(entries) > 0 && rng.Intn(3) > 0 {
+		e := entries[rng.Intn(len(entries))]
+		if e.K != "id" {
+			ar.Addr.Fam = e.Fam
+			copy(ar.Addr.Bits, e.Bits)
+			if rng.Intn(4) == 0 && len(e.Bits) > 0 {
+				// Just outside: flip the last bit of the prefix.
+				ar.Addr.Bits[len(e.Bits)-1] ^= 1
+			}
+		}
+	}
+
+	ar.Form = "plain"
+	if rng.Intn(4) == 0 {
+		ar.Form = zzC03Forms(ar.Addr.Fam)[1]
+	}
+
+	if ar.Proto == "tls" || ar.Proto == "quic" || ar.Proto == "https" {
+		switch rng.Intn(3) {
+		case 0:
+		case 1:
+			ar.ID = zzC03BIDs[rng.Intn(len(zzC03BIDs))]
+		default:
+			ar.ID = zzC03BIDs[rng.Intn(len(zzC03BIDs))]
+			for _, e := range entries {
+				if e.K == "id" && rng.Intn(2) == 0 {
+					ar.ID = e.ID
+				}
+			}
+		}
+	}
+
+	ar.IDCase = []string{"plain", "mixed", "upper"}[rng.Intn(3)]
+	ar.Name = zzC03RandName(rng)
+	if len(v.Hosts) > 0 && rng.Intn(3) > 0 {
+		p := v.Hosts[rng.Intn(len(v.Hosts))]
+		ar.Name = append([]string{}, p.N...)
+		switch rng.Intn(5) {
+		case 0:
+			ar.Name = append([]string{zzC03BLabels[rng.Intn(len(zzC03BLabels))]}, ar.Name...)
+		case 1:
+			ar.Name = append([]string{"a", zzC03BLabels[rng.Intn(len(zzC03BLabels))]}, ar.Name...)
+		case 2:
+			// Look-alike of the first label.
+			ar.Name[0] = "x" + ar.Name[0]
+		case 3:
+			ar.Name = append(ar.Name, zzC03BTLDs[rng.Intn(len(zzC03BTLDs))])
+		}
+	}
+
+	ar.Spell = zzC03Spells[rng.Intn(len(zzC03Spells))]
+	ar.Qtype = zzC03QtypeName(zzC03Qtypes[rng.Intn(len(zzC03Qtypes))])
+
+	return ar
+}
+
+// TestZZVerifC03Trace is direction B: random list sets over 8-bit universes,
+// 500 requests per set, one NDJSON line per step in the vocabulary of
+// TraceAccess.tla.  Most requests go to HandleBefore directly (all six
+// transports), every fifth set goes through the real transports and also logs
+// the cumulative observers.
+func TestZZVerifC03Trace(t *testing.T) {
+	w := zzNewWriter(t, "VERIF_OUT")
+	defer w.close()
+
+	rng := rand.New(rand.NewSource(zzSeed()*31 + 7))
+	sets, perSet := 24, 500
+	if zzC03Tier() {
+		sets = 120
+	}
+
+	const width = 8
+	zh := zzC03NewSrv(t, false)
+	zt := zzC03NewSrv(t, true)
+
+	for si := 0; si < sets; si++ {
+		sock := si%5 == 4
+		z := zh
+		if sock {
+			z = zt
+		}
+
+		v := zzC03RandLists(rng, width)
+		c := zzC03NewConc(rng, width, sock)
+		c.labels, c.ids = nil, nil
+		allowed, disallowed, hosts := c.lists(v)
+		code, body := z.setAccess(allowed, disallowed, hosts)
+		if code != http.StatusOK {
+			t.Fatalf("set %d rejected: %d %s (%v %v %v)", si, code, body, allowed, disallowed, hosts)
+		}
+
+		w.put(map[string]any{
+			"k": "set", "allowed": v.Allowed, "disallowed": v.Disallowed, "hosts": v.Hosts,
+			"conc": map[string]any{"allowed": allowed, "disallowed": disallowed, "hosts": hosts},
+		})
+
+		n := perSet
+		protos := zzC03ProtoNames
+		if sock {
+			// Transport probes cost up to 40 ms each when silent.
+			n = perSet / 5
+		}
+
+		for i := 0; i < n; i++ {
+			ar := zzC03RandReq(rng, v, width, protos)
+			if sock && ar.Proto != "https" {
+				if ar.Addr.Fam == "v6" {
+					ar.Proto = "https"
+				} else if ar.Form == "zoned" {
+					ar.Form = "plain"
+				}
+			}
+
+			if sock && ar.Spell == "nodot" {
+				ar.Spell = "plain"
+			}
+
+			plain := c.addr(ar.Addr.Fam, ar.Addr.Bits)
+			r := &zzC03Req{
+				Level: "handler", Proto: ar.Proto, Form: ar.Form,
+				Addr:  c.form(plain, ar.Form).String(),
+				ID:    zzC03Spell(rng, c.id(ar.ID), ar.IDCase),
+				IDVia: []string{"path", "sni"}[rng.Intn(2)],
+				Name:  zzC03Spell(rng, c.name(ar.Name), ar.Spell),
+				Qtype: dns.StringToType[ar.Qtype],
+			}
+
+			line := map[string]any{"k": "req", "areq": ar, "req": r}
+			if !sock {
+				line["lvl"] = "handler"
+				line["out"] = z.handle(r)
+				if ar.Form != "plain" {
+					pr := *r
+					pr.Addr, pr.Form = plain.String(), "plain"
+					line["plain_out"] = z.handle(&pr)
+				}
+			} else {
+				r.Level = "transport"
+				if !(ar.Proto == "https" && ar.Form == "zoned") {
+					r.Addr = plain.String()
+				}
+
+				// Control client: some IPv4 address of the universe; whether it
+				// is served does not matter for soundness (an unanswered
+				// control only lengthens the wait).
+				var ctl *zzC03Ctl
+				for try := 0; try < 24 && ctl == nil; try++ {
+					ca := c.addr("v4", zzC03RandBits(rng, width))
+					if bl, _ := z.s.IsBlockedClient(ca, ""); !bl && ca != plain {
+						ctl = &zzC03Ctl{src: ca, name: zzC03ControlName}
+					}
+				}
+
+				before := z.obs.snap()
+				out := z.transport(r, ctl, false)
+				d := zzC03Delta(before, z.obs.snap())
+				line["lvl"] = "transport"
+				line["out"] = out
+				line["d"] = map[string]int64{"up": d.Up, "filt": d.Filt, "qlog": d.Qlog, "stats": d.Stats}
+				if ar.Form != "plain" {
+					pr := *r
+					pr.Addr, pr.Form = plain.String(), "plain"
+					line["plain_out"] = z.transport(&pr, ctl, false)
+				}
+			}
+
+			w.put(line)
+		}
+	}
+}
+
+// ------------------------------------------------------------------- replay
+
+// zzC03One is a stored concrete step: lists and one request.
+type zzC03One struct {
+	Conc struct {
+		Allowed    []string `json:"allowed"`
+		Disallowed []string `json:"disallowed"`
+		Hosts      []string `json:"hosts"`
+	} `json:"conc"`
+	Req zzC03Req `json:"req"`
+}
+
+// TestZZVerifC03One re-executes stored concrete steps alone, each on a fresh
+// server: used to reproduce a rejected trace line in isolation and by
+// ./check C03 --replay.
+func TestZZVerifC03One(t *testing.T) {
+	w := zzNewWriter(t, "VERIF_OUT")
+	defer w.close()
+
+	var zt *zzC03Srv
+	zzReadNDJSON(t, "VERIF_IN", func(line []byte) {
+		one := &zzC03One{}
+		if err := json.Unmarshal(line, one); err != nil {
+			t.Fatalf("bad step: %v", err)
+		}
+
+		r := &one.Req
+		row := map[string]any{"kind": "one", "req": r, "conc": one.Conc}
+		var z *zzC03Srv
+		switch r.Level {
+		case "transport":
+			if zt == nil {
+				zt = zzC03NewSrv(t, true)
+			}
+
+			z = zt
+		case "linklocal":
+			row["out"] = "skipped: environment-dependent probe"
+			w.put(row)
+
+			return
+		default:
+			z = zzC03NewSrv(t, false)
+		}
+
+		code, body := z.setAccess(one.Conc.Allowed, one.Conc.Disallowed, one.Conc.Hosts)
+		if code != http.StatusOK {
+			row["out"] = fmt.Sprintf("set:%d:%s", code, body)
+			w.put(row)
+
+			return
+		}
+
+		switch r.Level {
+		case "decision":
+			bl, _ := z.s.IsBlockedClient(netip.MustParseAddr(r.Addr), r.ID)
+			row["out"] = fmt.Sprint(bl)
+		case "transport":
+			before := z.obs.snap()
+			row["out"] = z.transport(r, nil, true)
+			d := zzC03Delta(before, z.obs.snap())
+			row["d"] = map[string]int64{"up": d.Up, "filt": d.Filt, "qlog": d.Qlog, "stats": d.Stats}
+		default:
+			row["out"] = z.handle(r)
+		}
+
+		w.put(row)
+	})
 }
